@@ -291,7 +291,7 @@ func bucket(n int) string {
 // ---------------------------------------------------------------- end to end
 
 func c15NewNode(dir string, port int, maxCount int64) (*cluster.ClusterNode, error) {
-	return cluster.NewNode(cluster.ClusterNodeConfig{
+	return startNode(cluster.ClusterNodeConfig{
 		RootDir:            dir,
 		RpcHost:            "localhost",
 		RpcPort:            port,
@@ -321,6 +321,70 @@ func c15EndToEnd(rc *runCtx, nseq int, files *c15Files, hist map[string]int, not
 		}
 		defer nd.Close()
 		nodes[mc] = nd
+	}
+	// one request whose range for ONE shard is long and fails at its very end: a stored id is sent again as the last
+	// point in id order of 1300 (the shard refuses the range). The range is reported failed as a whole, so nothing of
+	// it may stay behind: total = previous total + n - points of failed ranges
+	{
+		nd, err := c15NewNode(filepath.Join(tmp, "nodeL"), 21510, 5000)
+		if err != nil {
+			return err
+		}
+		defer nd.Close()
+		user, colId := "userL", "col"
+		plan := models.UserPlan{Name: "VERIF", MaxCollections: 2, MaxCollectionPointCount: 100000, MaxPointSize: 1000}
+		if err := nd.CreateCollection(models.Collection{UserId: user, Id: colId, Replicas: 1, Timestamp: 1, CreatedAt: 1, UserPlan: plan, IndexSchema: models.IndexSchema{}}); err != nil {
+			return fmt.Errorf("CreateCollection: %w", err)
+		}
+		totalL := func() (models.Collection, int64, error) {
+			col, err := nd.GetCollection(user, colId)
+			if err != nil {
+				return col, 0, err
+			}
+			infos, err := nd.VerifGetShardsInfo(col)
+			if err != nil {
+				return col, 0, err
+			}
+			t := int64(0)
+			for _, s := range infos {
+				t += s.PointCount
+			}
+			return col, t, nil
+		}
+		last := uuid.Max
+		col, _, err := totalL()
+		if err != nil {
+			return err
+		}
+		if failed, err := nd.InsertPoints(col, []models.Point{{Id: last, Data: c15Doc(0)}}); err != nil || len(failed) > 0 {
+			return fmt.Errorf("InsertPoints: %v %v", err, failed)
+		}
+		for round, np := range []int{1300, 130} {
+			col, before, err := totalL()
+			if err != nil {
+				return err
+			}
+			pts := make([]models.Point, np)
+			for i := range pts {
+				pts[i] = models.Point{Id: c15Uuid(r), Data: c15Doc(int64(i))}
+			}
+			pts[r.IntN(np)].Id = last
+			failed, ierr := nd.InsertPoints(col, pts)
+			if ierr != nil {
+				return fmt.Errorf("InsertPoints: %w", ierr)
+			}
+			fp := int64(0)
+			for _, f := range failed {
+				fp += int64(f.End - f.Start)
+			}
+			_, after, err := totalL()
+			if err != nil {
+				return err
+			}
+			files.add(fmt.Sprintf("CInsert %s %s %s %s %s %s", cZ(before), cZ(int64(np)), cZ(100000), cBool(false), cZ(after), cZ(fp)))
+			hist["insert of a long range that fails at its end"]++
+			note(fmt.Sprintf("longfail|%d|%d|%d", round, np, fp))
+		}
 	}
 	for seq := 0; seq < nseq; seq++ {
 		maxCount := []int64{1, 2, 5}[seq%3]
